@@ -19,7 +19,7 @@ META = {
     "one query per interpolation cell.",
     "bounds": "ranks 1-4; shapes listed per unit (quick: up to 5 points per axis and 16 corners; thorough: up to 9 points, 3x3x3, "
     "3x2x2x2); batched coordinates of length 2-3; linear grids with symbolic start<stop and n in {2,3,5,9}(+17,33 thorough; n-1 must be a power of two so that the float construction of the grid is exact); log grids "
-    "with symbolic 0<start<stop, n in {2,3,5}, values inside the range; exp/log are uninterpreted functions with instantiated true axioms",
+    "with symbolic 0<start<stop, n in {2,3,5} (thorough +9,17), values inside the range, replays only for bounds separated by a relative gap > 1e-6; exp/log are uninterpreted functions with instantiated true axioms",
     "outside": "floating-point rounding of floor() at cell borders and of the grid construction; shapes beyond the listed ones; "
     "log grids outside [start, stop]",
     "assumptions": ["start < stop (and start > 0 for log grids) as guaranteed by the grid validators", "array entries and coordinates finite"],
@@ -36,7 +36,7 @@ def units(tier):
     ns = [2, 3, 5, 9] + ([17, 33] if tier == "thorough" else [])  # n-1 a power of two: jnp.linspace is then exact in floats (DESIGN 5.4)
     out += [(f"linspace_coordinate[n={n}]", "u_linspace_coord", {"n": n}) for n in ns]
     out += [("linspace_coordinate[n symbolic]", "u_linspace_coord_symn", {})]
-    out += [(f"logspace_coordinate[n={n}]", "u_logspace_coord", {"n": n}) for n in ([2, 3, 5] if tier == "quick" else [2, 3, 4, 5, 9])]
+    out += [(f"logspace_coordinate[n={n}]", "u_logspace_coord", {"n": n}) for n in ([2, 3, 5] if tier == "quick" else [2, 3, 5, 9, 17])]  # n-1 a power of two (see above)
     return out
 
 
@@ -295,8 +295,16 @@ def u_logspace_coord(rec, n):
         # for the obligation at hand (plus log(start), log(stop))
         return axioms.explog_axioms([sj.z(t) for t in relevant] + [ls, lt], start=start, stop=stop)
 
+    def separated(vals):
+        # replays run in floats: bounds that coincide after rounding (relative gap < 1e-6) give 0/0 there -
+        # floating-point rounding is outside the claim, such a model counts as not reproduced
+        a, b = float(vals["start"]), float(vals["stop"])
+        return 0 < a < b and (b - a) > 1e-6 * b
+
     def mk_replay(index, expected_fn):
         def replay(vals):
+            if not separated(vals):
+                return None
             try:
                 obs = _log_concrete(vals, n)[index]
                 exp = expected_fn(vals)
@@ -325,13 +333,13 @@ def u_logspace_coord(rec, n):
             f"node[{i}] < node[{i+1}]",
             sj.z(grid[i]) < sj.z(grid[i + 1]),
             pre + ax_for(grid[i], grid[i + 1]),
-            replay=lambda vals, i=i: (lambda o: None if o[i] < o[i + 1] else {"kind": "logspace", "what": "nodes not increasing", "observed": o[: n], "expected": "increasing"})(_log_concrete(vals, n)) if 0 < vals["start"] < vals["stop"] else None,
+            replay=lambda vals, i=i: (lambda o: None if o[i] < o[i + 1] else {"kind": "logspace", "what": "nodes not increasing", "observed": o[: n], "expected": "increasing"})(_log_concrete(vals, n)) if separated(vals) else None,
         )
     for i in range(n):
         rec.prove(f"coordinate(node[{i}]) == {i}", sj.zr(cn[i]) == i, pre + ax_for(cn[i]), replay=mk_replay(n + i, lambda vals, i=i: Fraction(i)))
     def rp_pred(vals):
         # float re-check of monotonicity / range of the coordinate for values inside [start, stop]
-        if not (0 < vals["start"] < vals["stop"] and vals["start"] <= vals["v1"] <= vals["stop"] and vals["start"] <= vals["v2"] <= vals["stop"]):
+        if not (separated(vals) and vals["start"] <= vals["v1"] <= vals["stop"] and vals["start"] <= vals["v2"] <= vals["stop"]):
             return None
         obs = _log_concrete(vals, n)
         o1, o2 = obs[2 * n], obs[2 * n + 1]
